@@ -1,4 +1,5 @@
 import MxModel.Proofs.IOSpecClosed
+import MxModel.Proofs.IOKeys
 /-!
 # C18 – an IOSpec lives exactly as long as a reference to its value
 
@@ -138,6 +139,50 @@ theorem closed_models_hold_no_spec_partial (kw : List String) (ops : List Op) (h
   have := closedFree_run kw ops {} rinv_empty (by intro σ hσ; cases hσ) h σ hσ
   rw [List.contains_eq_mem, decide_eq_false_iff_not] at this
   exact this hin
+
+/-! ## The registry of file objects: relative and absolute paths (`Kernels/IOKeys.lean`) -/
+
+/-- **io_keys_unique** (every history of creations, path changes – relative→relative,
+relative→absolute, absolute→relative, absolute→absolute, accepted or refused – and removals, from
+any models): no two file objects are registered under one key, and none twice. -/
+theorem io_keys_unique (ops : List IOKeys.Op) :
+    (∀ a ∈ (IOKeys.run {} ops).ios, ∀ b ∈ (IOKeys.run {} ops).ios, a.group = b.group → a.path = b.path → a = b) ∧
+    (∀ a ∈ (IOKeys.run {} ops).ios, ∀ b ∈ (IOKeys.run {} ops).ios, a.id = b.id → a = b) :=
+  ⟨(IOKeys.inv_run ops {} ⟨by simp, by simp, by simp⟩).keyUnique,
+   (IOKeys.inv_run ops {} ⟨by simp, by simp, by simp⟩).idUnique⟩
+
+/-- **io_keys_are_locations (partial: no path change from an absolute to a relative path).**  The key
+a file object is registered under IS the file it is written to – an absolute path in the
+session-wide group, a relative path in the group of its model (the file below that model's folder) –
+after every history, however files are created and moved.  With `io_keys_unique`: keys and file
+locations are in bijection, through the path setter too; two file objects never denote one file. -/
+theorem io_keys_are_locations_partial (ops : List IOKeys.Op) (h : IOKeys.NoAbsToRel {} ops) :
+    ∀ a ∈ (IOKeys.run {} ops).ios, a.group.isNone = IOKeys.isAbs a.path := by
+  intro a ha
+  have := IOKeys.wellKeyed_run ops {} (by simp) h a ha
+  simpa [IOKeys.Io.wellKeyed] using this
+
+/-- the path setter from an absolute to a relative path leaves the file in the session-wide group
+(recorded finding C18-absolute-io-shared): a second file object under the same relative path in the
+model's own group is then accepted – two file objects, one file -/
+theorem io_keys_are_locations_fails_abs_to_rel :
+    ¬ ∀ (ops : List IOKeys.Op), ∀ a ∈ (IOKeys.run {} ops).ios, a.group.isNone = IOKeys.isAbs a.path := by
+  intro h
+  have := h [.claim 0 "/t/a.csv", .move 0 "a.csv", .claim 0 "a.csv"] ⟨0, none, "a.csv"⟩ (by decide +kernel)
+  revert this; decide +kernel
+
+/-- non-vacuity: all four kinds of move, a refused move onto a key in use, creations on the
+destinations afterwards from the same and from another model -/
+def keyDemo : List IOKeys.Op :=
+  [.claim 0 "a.csv", .claim 0 "sub/../b.xlsx", .move 0 "/t/M0/./c.csv", .claim 1 "/t/M0/c.csv",
+   .claim 0 "a.csv", .move 1 "/t/M0/c.csv", .move 0 "/t/d.csv", .move 1 "x/b.xlsx", .claim 1 "b.xlsx", .drop 0]
+
+example : IOKeys.NoAbsToRel {} keyDemo := by decide +kernel
+example : (IOKeys.run {} keyDemo).ios.map (fun i => (i.id, i.group, i.path)) =
+    [(2, some 0, "a.csv"), (1, some 0, "x/b.xlsx"), (3, some 1, "b.xlsx")] := by decide +kernel
+example : ((IOKeys.stepR (IOKeys.run {} (keyDemo.take 3)) (.claim 1 "/t/M0/c.csv")).2,
+    (IOKeys.stepR (IOKeys.run {} (keyDemo.take 5)) (.move 1 "/t/M0/c.csv")).2) =
+    (.existing 0, .refused) := by decide +kernel
 
 /-! ## The full statements fail: one witness per known finding -/
 
